@@ -9,7 +9,8 @@
 (* Transport addresses: "cand" is the candidate the peer signalled, "unk"   *)
 (* any other address.  A datagram is described by what matters to the       *)
 (* component:                                                               *)
-(*   cls   request | response | error        (binding method)               *)
+(*   cls   request | indication | response | error   (STUN message class)  *)
+(*   meth  binding | other     (other: a TURN method, sent as Allocate)     *)
 (*   auth  valid  : carries MESSAGE-INTEGRITY that verifies under the key   *)
 (*                  the component uses for that class (requests: its own    *)
 (*                  password, responses: the peer's password)               *)
@@ -23,6 +24,11 @@
 (*   ra    role attribute: none | controlling | controlled                  *)
 (*   un    USERNAME as expected / something else (the implementation does   *)
 (*         not look at it and C15 does not ask it to; carried to the wire)  *)
+(*   pr    PRIORITY attribute present (carried to the wire)                 *)
+(* The alphabet is the full product: whoever does not know the credentials  *)
+(* can still choose every other field.  Indications (RFC 5245 keep-alives)  *)
+(* need no integrity code and are never acted upon; other methods are not   *)
+(* for the component.                                                       *)
 (*                                                                          *)
 (* One action per handler: SetRemote (setRemoteUser/Password +              *)
 (* addRemoteCandidate), Start (connectToHost -> checkCandidates), Tick      *)
@@ -30,12 +36,17 @@
 (* (QXmppStunTransaction::retry), Recv (handleDatagram + transactionFinished*)
 (* + the completion block).  RequireMI = TRUE is the intended behaviour: a  *)
 (* datagram is processed only if its integrity code is present and valid.   *)
-(* (RequireMI = FALSE is what the unchanged tree does -- IceBug.cfg.)       *)
+(* (RequireMI = FALSE is what the tree did before the fix -- IceBug.cfg.    *)
+(* Dispatch = "highbyte" sends everything whose type has an empty high byte *)
+(* -- requests and indications -- to the request handler: IceIndication.cfg)*)
 (***************************************************************************)
 EXTENDS Naturals, Sequences, FiniteSets, TLC
 
 CONSTANTS Roles,        \* subset of BOOLEAN: is the component controlling
           RequireMI,    \* TRUE: intended behaviour
+          Dispatch,     \* "class": requests are what has message class Request (intended); "highbyte": see above
+          Methods,      \* subset of {"binding", "other"}
+          Priorities,   \* subset of BOOLEAN: PRIORITY attribute present
           ForgedAuth,   \* subset of {"none", "wrong", "trunc"}: what the model's attacker sends
           Usernames,    \* subset of {"ok", "other"}
           MaxTx,        \* bound on connectivity checks started
@@ -63,14 +74,15 @@ Addrs  == {"cand", "unk"}
 NoPair == [st |-> "none", nom |-> FALSE, ning |-> FALSE, tx |-> 0, hi |-> FALSE]
 Prio(ps, a) == IF ps[a].hi THEN 2 ELSE 1    \* host candidate (126) before peer-reflexive (110): RFC 5245 4.1.2
 
-\* (USE-CANDIDATE, role attribute and USERNAME only occur in requests; a request carries its sender's own
-\* transaction id)
+\* (USE-CANDIDATE, PRIORITY, role attribute and USERNAME are attributes of requests -- and of indications
+\* built like requests; a request or indication carries its sender's own transaction id, a response may
+\* carry the id of an outstanding check)
 Datagrams ==
-    [cls : {"request"}, auth : {"valid"} \cup ForgedAuth, uc : BOOLEAN, src : Addrs,
-     tx : {"fresh"}, ra : {"none", "controlling", "controlled"}, un : Usernames]
+    [cls : {"request", "indication"}, meth : Methods, auth : {"valid"} \cup ForgedAuth, uc : BOOLEAN, src : Addrs,
+     tx : {"fresh"}, ra : {"none", "controlling", "controlled"}, un : Usernames, pr : Priorities]
     \cup
-    [cls : {"response", "error"}, auth : {"valid"} \cup ForgedAuth, uc : {FALSE}, src : Addrs,
-     tx : Addrs \cup {"fresh"}, ra : {"none"}, un : {"ok"}]
+    [cls : {"response", "error"}, meth : Methods, auth : {"valid"} \cup ForgedAuth, uc : {FALSE}, src : Addrs,
+     tx : Addrs \cup {"fresh"}, ra : {"none"}, un : {"ok"}, pr : {FALSE}]
 
 Init ==
     /\ ctl \in Roles /\ remoteSet = FALSE /\ started = FALSE
@@ -103,12 +115,13 @@ SetRemote ==
     /\ UNCHANGED <<ctl, started, active, ntx, nticks>>
 
 \* the check list is sorted by pair priority; pairs of equal priority stay in creation order
-FirstWaiting ==
-    IF \E a \in Addrs : pairs[a].st = "waiting" /\ pairs[a].hi
-    THEN CHOOSE a \in Addrs : pairs[a].st = "waiting" /\ pairs[a].hi
-    ELSE IF \E i \in 1..Len(ord) : pairs[ord[i]].st = "waiting"
-         THEN ord[CHOOSE i \in 1..Len(ord) : pairs[ord[i]].st = "waiting" /\ \A j \in 1..(i-1) : pairs[ord[j]].st # "waiting"]
+FirstWaitingOf(ps, od) ==
+    IF \E a \in Addrs : ps[a].st = "waiting" /\ ps[a].hi
+    THEN CHOOSE a \in Addrs : ps[a].st = "waiting" /\ ps[a].hi
+    ELSE IF \E i \in 1..Len(od) : ps[od[i]].st = "waiting"
+         THEN od[CHOOSE i \in 1..Len(od) : ps[od[i]].st = "waiting" /\ \A j \in 1..(i-1) : ps[od[j]].st # "waiting"]
          ELSE "none"
+FirstWaiting == FirstWaitingOf(pairs, ord)
 
 \* checkCandidates(): one check on the first waiting pair
 CheckCandidates ==
@@ -147,9 +160,15 @@ TxTimeout(a) ==
     /\ UNCHANGED <<ctl, remoteSet, started, rc, ord, active, ntx, nticks>>
 
 (* --- handleDatagram --------------------------------------------------------------------------------- *)
-\* the key exists: requests are checked with the local password, responses with the remote one
-HasKey(d) == d.cls = "request" \/ remoteSet
-Accepted(d) == HasKey(d) /\ (d.auth = "valid" \/ (~RequireMI /\ d.auth = "none"))
+\* the key exists: requests and indications are checked with the local password, responses with the remote one
+HasKey(d) == d.cls \in {"request", "indication"} \/ remoteSet
+\* QXmppStunMessage::decode: an integrity code that is present must verify; an absent one is not its business
+Decodes(d) == HasKey(d) /\ d.auth \in {"valid", "none"}
+\* the receiver's guard: everything but an indication must have carried one (RequireMI)
+Authenticated(d) == d.auth = "valid" \/ d.cls = "indication" \/ ~RequireMI
+\* which handler: by message class -- or, wrongly, by the high byte of the type
+ToRequestHandler(d)  == d.cls = "request" \/ (Dispatch = "highbyte" /\ d.cls = "indication")
+ToResponseHandler(d) == d.cls \in {"response", "error"}
 RoleConflict(d) ==
     \/ ctl /\ (d.ra = "controlling" \/ d.uc)
     \/ ~ctl /\ d.ra = "controlled"
@@ -186,10 +205,11 @@ HandleResponse(d) ==
                  /\ out' = <<>> /\ UNCHANGED <<rc, ord, ntx>>
 
 Recv(d) ==
-    /\ IF ~Accepted(d) THEN NoEffect
-       ELSE IF d.cls = "request"
+    /\ IF ~Decodes(d) \/ d.meth # "binding" \/ ~Authenticated(d) THEN NoEffect
+       ELSE IF ToRequestHandler(d)
             THEN IF RoleConflict(d) THEN NoEffect ELSE HandleRequest(d)
-            ELSE HandleResponse(d)
+            ELSE IF ToResponseHandler(d) THEN HandleResponse(d)
+            ELSE NoEffect                      \* a binding indication: a keep-alive, nothing to do
     /\ Log([a |-> "Recv", d |-> d])
     /\ UNCHANGED <<ctl, remoteSet, started, nticks>>
 
@@ -230,6 +250,7 @@ Bound == Len(hist) <= MaxHist /\ ntx <= MaxTx
 
 \* The check timer of the real component runs on wall-clock time: once a tick would start a check, a replay
 \* must let it happen before anything else (IceGen restricts exported behaviours to such schedules).
-TickPending == started /\ active = "none" /\ remoteSet /\ FirstWaiting # "none"
+TickPendingOf(s, ac, rs, ps, od) == s /\ ac = "none" /\ rs /\ FirstWaitingOf(ps, od) # "none"
+TickPending == TickPendingOf(started, active, remoteSet, pairs, ord)
 View == mvars
 =============================================================================
